@@ -286,6 +286,44 @@ func Burn(h uint32, addr factom.FAAddress, amount uint64, salt int) factom.Facto
 		[]factom.FactoidTransactionIO{{Amount: 0, Address: burnRCD}})
 }
 
+// NearMissBurn builds a factoid transaction that is NOT a burn but misses the burn shape in
+// exactly one respect (shape 0..6).
+func NearMissBurn(h uint32, addr factom.FAAddress, amount uint64, salt int, shape int) factom.FactoidTransaction {
+	var burnRCD, ec, other factom.Bytes32
+	mr, _ := hex.DecodeString("37399721298d77984585040ea61055377039a4c3f3e2cd48c46ff643d50fd64f")
+	copy(burnRCD[:], mr)
+	for i := range ec {
+		ec[i] = byte(0x40 + i + salt)
+		other[i] = byte(0x90 + i + salt)
+	}
+	ts := BlockTime(h).Add(time.Duration(500+salt) * time.Millisecond)
+	in := []factom.FactoidTransactionIO{{Amount: amount, Address: factom.Bytes32(addr)}}
+	switch shape % 7 {
+	case 0: // entry credits bought for the burn address: right address, non-zero amount
+		return MakeFctTx(ts, in, nil, []factom.FactoidTransactionIO{{Amount: amount / 2, Address: burnRCD}})
+	case 1: // zero-amount EC output to an ordinary EC key
+		return MakeFctTx(ts, in, nil, []factom.FactoidTransactionIO{{Amount: 0, Address: ec}})
+	case 2: // ordinary EC purchase
+		return MakeFctTx(ts, in, nil, []factom.FactoidTransactionIO{{Amount: amount / 2, Address: ec}})
+	case 3: // a burn output plus a second EC output
+		return MakeFctTx(ts, in, nil, []factom.FactoidTransactionIO{{Amount: 0, Address: burnRCD}, {Amount: 0, Address: ec}})
+	case 4: // a burn output plus an FCT output
+		return MakeFctTx(ts, in, []factom.FactoidTransactionIO{{Amount: amount / 3, Address: other}}, []factom.FactoidTransactionIO{{Amount: 0, Address: burnRCD}})
+	case 5: // two inputs
+		return MakeFctTx(ts, append(in, factom.FactoidTransactionIO{Amount: 7, Address: other}), nil, []factom.FactoidTransactionIO{{Amount: 0, Address: burnRCD}})
+	default: // plain FCT payment, no EC output
+		return MakeFctTx(ts, in, []factom.FactoidTransactionIO{{Amount: amount / 2, Address: other}}, nil)
+	}
+}
+
+// IsBurn is the specification of an FCT burn: exactly one FCT input, no FCT output, exactly one
+// EC output, to the burn address, of amount zero.
+func IsBurn(t factom.FactoidTransaction) bool {
+	mr, _ := hex.DecodeString("37399721298d77984585040ea61055377039a4c3f3e2cd48c46ff643d50fd64f")
+	return len(t.FCTInputs) == 1 && len(t.FCTOutputs) == 0 && len(t.ECOutputs) == 1 &&
+		hex.EncodeToString(t.ECOutputs[0].Address[:]) == hex.EncodeToString(mr) && t.ECOutputs[0].Amount == 0
+}
+
 func shaHex(b []byte) string { s := sha256.Sum256(b); return hex.EncodeToString(s[:]) }
 
 var _ = factoidaddress.Valid
